@@ -192,6 +192,40 @@ def check(rep, ctx):
         rep.check(R_D, q is not None and not issues, construct=w.ref, stmt=timeflow.show(d.get("conv")),
                   message="; ".join(f"{r}: {m}" for r, m, _ in issues) or "writer conversion not understood",
                   file=ctx.sm.require("kio.serial.writers").rel, line=w.node.lineno)
+    # rounding of sub-millisecond durations: to the nearest millisecond, ties to even (what round() does, and what the comment in
+    # writers.py promises) -- decided by evaluating the writers (E2) on the finitely many orderings: below / at / above a tie, odd and
+    # even whole part, both signs
+    R_R = rep.rule("C12-duration-rounding", "the duration writers round a sub-millisecond value to the nearest millisecond, ties to even", floor=20)
+    import struct as _st
+    from ..values import StreamV
+    wmod = I.module("kio.serial.writers")
+    for wname, fmt in (("write_timedelta_i32", ">i"), ("write_timedelta_i64", ">q")):
+        wf = wmod.env.vars.get(wname)
+        if not isinstance(wf, FuncV):
+            raise AnalysisError(f"anchor vanished: kio.serial.writers.{wname}")
+        for us in (0, 1, 499, 500, 501, 999, 1000, 1499, 1500, 1501, 2500, 3500, 4500, -1, -499, -500, -501, -1500, -2500, 123456500, 123457500):
+            want = round(us / 1000) if abs(us) < 10 ** 9 else None
+            # exact reference: round-half-even of the rational us/1000
+            q_, r_ = divmod(us, 1000)
+            want = q_ + (1 if (r_ > 500 or (r_ == 500 and q_ % 2)) else 0)
+            run_ = Run()
+            try:
+                I.call(wf, [StreamV("param"), _dt.timedelta(microseconds=us)], {}, run_, None)
+            except Raised as r:
+                rep.check(R_R, False, construct=wf.ref, stmt=f"{wname}(timedelta(microseconds={us}))", message=f"raises {short_exc(r.cls)}",
+                          file=ctx.sm.require("kio.serial.writers").rel, line=wf.node.lineno)
+                continue
+            except Limit as e:
+                rep.limit(f"{wf.ref}: not evaluated on a concrete duration: {e}")
+                break
+            ws = [e for e in run_.effects if e[0] == "write"]
+            got = _st.unpack(fmt, ws[0][2])[0] if len(ws) == 1 and isinstance(ws[0][2], bytes) and len(ws[0][2]) == _st.calcsize(fmt) else None
+            if got is None:
+                rep.limit(f"{wf.ref}: the bytes written for a concrete duration are not constant")
+                break
+            rep.check(R_R, got == want, construct=wf.ref, stmt=f"{wname}(timedelta(microseconds={us}))",
+                      message=f"timedelta(microseconds={us}) is written as {got} ms; to the nearest millisecond, ties to even, it is {want}",
+                      file=ctx.sm.require("kio.serial.writers").rel, line=wf.node.lineno)
     # timestamp
     tname = SPEC_PYTYPE["datetime_i64"].split(":")[1]
     tz = pv.get(tname)
@@ -212,8 +246,8 @@ def check(rep, ctx):
                 gran_problem.append("requires dt.microsecond == 0: only whole-second datetimes are members, a wire value of 1500 ms has no representation")
             if t[0] == "is" and t[1] == ("attr", dtv.term, "tzinfo") and not pol:
                 aware = True
-            if t[0] == "ge" and t[1][0] == "timestamp" and t[2] == ("k", 0) and pol:
-                nonneg = True
+            if t[0] == "ge" and t[1][0] in ("timestamp", "timegm") and t[2] == ("k", 0) and pol:
+                nonneg = True  # the instant in seconds since the epoch, however it is obtained
         ms_ok = any(f[0][0] == "eq" and f[0][1] == ("mod", micro, ("k", 1000)) and f[0][2] == ("k", 0) and f[1] for f in p.facts)
         if not ms_ok and not gran_problem:
             gran_problem.append("does not restrict the value to whole milliseconds (dt.microsecond % 1000 == 0)")
@@ -224,6 +258,17 @@ def check(rep, ctx):
               file=file, line=src_line, instance="aware")
     rep.check(R_T, nonneg, construct=pred.ref, stmt="dt.timestamp() >= 0", message="the predicate does not require a non-negative timestamp",
               file=file, line=src_line, instance="nonneg")
+    # the membership test is total: it answers True/False for every datetime and raises for none
+    raising = []
+    for p in paths:
+        if p.outcome == "raise":
+            raising.append(f"raises {short_exc(p.value.cls)} at {p.value.attrs.get('__site__', '?')}")
+        for e in p.effects:
+            if e[0] == "may-raise":
+                raising.append(f"may raise {e[1]} ({e[3]}) at {e[2]}")
+    rep.check(R_T, not raising, construct=pred.ref, stmt="membership test raises", message="the predicate of the timestamp type is not total: " +
+              "; ".join(sorted(set(raising))[:3]) + " -- isinstance(x, TZAware) / TZAware(x) must answer False / TypeError for a non-member and "
+              "accept a member, never leak another exception", file=file, line=src_line, instance="total")
     # every member of the timestamp type is written exactly (E6 on the writer the table selects)
     for opt in (False, True):
         w = I.call(gw, [], {"kafka_type": "datetime_i64", "flexible": False, "optional": opt}, Run(), None)
